@@ -765,6 +765,29 @@ impl Searcher {
         }
     }
 
+    /// Verification hook: the line-oriented incremental search of
+    /// `search_reader`, reading directly from `read_from` (no transcoding
+    /// reader in between), so that the sizes of the reads seen by the line
+    /// buffer are exactly those of the given reader. Only present with
+    /// `--cfg ripgrep_verif`.
+    #[cfg(ripgrep_verif)]
+    pub fn verif_search_reader_raw<M, R, S>(
+        &mut self,
+        matcher: M,
+        read_from: R,
+        write_to: S,
+    ) -> Result<(), S::Error>
+    where
+        M: Matcher,
+        R: io::Read,
+        S: Sink,
+    {
+        self.check_config(&matcher).map_err(S::Error::error_config)?;
+        let mut line_buffer = self.line_buffer.borrow_mut();
+        let rdr = LineBufferReader::new(read_from, &mut *line_buffer);
+        ReadByLine::new(self, matcher, rdr, write_to).run()
+    }
+
     /// Execute a search over the given slice and write the results to the
     /// given sink.
     pub fn search_slice<M, S>(
